@@ -157,3 +157,23 @@ def object_peaks(V, which):
         for i in V.idx(0, n, 'i'):
             out.prove('peak-bounds-every-sample-of-the-right-series', T.sge(p, T.sabs(series[i])))
         out.prove('peak-attained', T.sor(T.seq(p, V.np.np_max(series)), T.seq(p, T.sneg(V.np.np_min(series)))))
+
+
+# ------------------------------------------------------------------- object-level access AFTER the record has been changed
+import contracts_c04_cache as C4
+
+KIN_READERS = ['velocity', 'displacement', 'pga', 'pgv', 'pgd']
+RECORD_CHANGING = ['reset_values', 'add_constant', 'add_series', 'add_signal', 'remove_average', 'remove_poly/1', 'running_average',
+                   'butter_pass/band', 'remove_rolling_average/values', 'rebase_displacement', 'set_zero_residual_velocity',
+                   'set_zero_residual_displacement', 'correct_me']
+
+
+@unit('C08', 'velocity/displacement/peaks-after-the-record-changed', functions=C4.FUNCS,
+      cases=[dict(op=k) for k in RECORD_CHANGING], modes=('unbounded',), budget_ms=3000)
+def kinematics_after_change(V, op):
+    """History read velocity, displacement, PGA, PGV, PGD -> change the record through a public operation -> read again: the object
+    reports what a freshly constructed object with the NEW record reports (whose series are the cumulative trapezoid integrals by the
+    units above), not the series of the record it held before."""
+    ops = dict(C4.COMMON_OPS)
+    ops.update(C4.ACC_OPS)
+    C4.run_op(V, 'AccSignal', op, ops[op], KIN_READERS, prewarm=True)
